@@ -214,12 +214,43 @@ def coq_items(c, e, k0):
     return items
 
 
+def follow_experiments(ctx, cs, count):
+    """a hand-built solver that loads from ITS OWN checkpoint directory while another solver keeps writing there:
+    'latest' must be what is on disk now, not what was there when the loading solver was constructed"""
+    out = []
+    for i, c in enumerate([c for c in cs if c["solver"] in ("vi", "rvi", "pvi", "savi")][:count]):
+        d = str(ctx.scratch / f"c10f_{i}" / "ck")
+        cfg = dict(c["config"], checkpoint_dir=d, checkpoint_frequency=1, max_checkpoints=4, enable_async_checkpointing=False)
+        job = {"kind": "ckpt_follow", "problem": c["problem"], "solver": c["solver"], "config": cfg, "k1": 2, "k2": 2}
+        out.append((c, job, core.run_worker(ctx, [job])[0]))
+    return out
+
+
+def follow_oracle(c, r):
+    if "error" in r or r.get("raised"):
+        return f"following a directory that another solver writes to failed: {r.get('error') or r.get('raised')}: {r.get('message', '')[:200]}"
+    w = r["writer"][-1]
+    for who in ("second", "fresh"):
+        got = r[who]
+        for key in RUNTIME:
+            if key in w and got.get(key) != w.get(key):
+                return (f"load_checkpoint(latest) by the {'solver that was built on this directory before the last saves' if who == 'second' else 'freshly built solver'} "
+                        f"restored {key} of iteration {got.get('iteration')} while the latest completed step is {max(r['steps'])} (iteration {w.get('iteration')})")
+    return None
+
+
 def run(ctx, build):
     cs = gen(ctx)
     with cf.ThreadPoolExecutor(max_workers=6) as ex:
         exps = list(ex.map(lambda ic: experiment(ctx, ic[1], ic[0]), enumerate(cs)))
     corr, viols, items, meta = [], [], [], []
     n_restores = 0
+    n_follow = 0
+    for c, job, r in follow_experiments(ctx, cs, 2 if ctx.tier == "quick" else 12):
+        n_follow += 1
+        why = follow_oracle(c, r)
+        if why:
+            viols.append({"key": f"follow:{c['seed']}", "what": why, "input": {"case": c, "follow_job": job}})
     for c, e in zip(cs, exps):
         for key, msg in oracle(c, e):
             viols.append({"key": key, "what": msg, "input": {"case": c}})
@@ -235,7 +266,7 @@ def run(ctx, build):
         for i in failing:
             corr.append({"what": "model decision (error kind / chosen step) and implementation disagree", "seed": meta[i]["seed"], "input": {"case": meta[i]}})
     cov = {
-        "evaluations": n_restores, "distinct_nontrivial": len({(c["solver"], c["problem"]["kind"], c["seed"]) for c in cs}) * 2,
+        "evaluations": n_restores + n_follow, "follow_while_another_solver_writes_experiments": n_follow, "distinct_nontrivial": len({(c["solver"], c["problem"]["kind"], c["seed"]) for c in cs}) * 2,
         "rule": "solver x shipped problem (small parameterisations incl. Mirjalili's tuple-valued parameters, non-default seeds/period): fresh process saves with frequency 1 / retention 3, "
                 "then fresh processes restore by restore() default step, explicit older step, override combinations, load_checkpoint(), and from malformed directories; "
                 "runtime fields compared bit for bit (dtype and shape included) with what the saving process held at that save call; non-trivial = every restore that reads a real checkpoint",
@@ -255,6 +286,9 @@ def replay(ctx, build, data):
     if not inp:
         return {"fails": False, "note": "no concrete input"}
     c = inp["case"]
+    if "follow_job" in inp:
+        why = follow_oracle(c, core.run_worker(ctx, [inp["follow_job"]])[0])
+        return {"fails": bool(why), "why": why}
     e = experiment(ctx, c, 998)
     msgs = oracle(c, e)
     return {"fails": bool(msgs), "why": msgs[:3]}
